@@ -1,0 +1,25 @@
+//go:build verif
+
+package lint
+
+// Contracts for the verification machinery in /verif (see /verif/DESIGN.md).
+// This file contains only comments; it is compiled to nothing.
+
+//@ prop C10
+
+//@ extern strings.HasPrefix(s string, prefix string) bool
+//@   pure
+//@   ensures result == str_prefixof(prefix, s)
+//@ extern strings.TrimPrefix(s string, prefix string) string
+//@   pure
+//@   ensures str_prefixof(prefix, s) ==> result == s[len(prefix):]
+//@ extern strings.Split(s string, sep string) []string
+//@   pure
+//@   ensures len(result) >= 1
+
+// "//lint:<command> <arg> <arg> ..." : the command is the first space-separated field after the
+// prefix, the arguments are the remaining fields; anything else is not a directive.
+//@ func parseDirective
+//@   ensures  [none] !str_prefixof("//lint:", s) ==> cmd == "" && len(args) == 0
+//@   ensures  [cmd]  str_prefixof("//lint:", s) ==> cmd == strings.Split(s[7:], " ")[0]
+//@   ensures  [args] str_prefixof("//lint:", s) ==> len(args) == len(strings.Split(s[7:], " ")) - 1 && (forall i int :: {args[i]} 0 <= i && i < len(args) ==> args[i] == strings.Split(s[7:], " ")[i+1])
